@@ -6,6 +6,6 @@ CONSTANTS
   Gap = 12
   ItemCap = 2
   ReusePorts = FALSE
-  StrictGap = FALSE
-  FwdStamps <- FwdNone
+  StrictGap = TRUE
+  FwdStamps <- FwdAll
 INVARIANTS SameExchange HalfRTT PrevConsistent NoPanic
